@@ -295,18 +295,46 @@ func buildC16(p *Program, tier string) ([]*Unit, []UnitError) {
 	// 3. map iteration order must not reach the output: a slice that is filled inside a range-over-map
 	// loop is sorted (sort.Slice / sort.Strings / sort.Sort) before anything else reads it, on every path.
 	nm := 0
+	lemmaKeys := map[string]bool{}
 	for _, pkgPath := range []string{pkgDecorator, pkgDst, pkgDstutil} {
 		for _, fn := range allFuncs(p, pkgPath) {
 			for _, fill := range mapFilledSlices(fn) {
 				nm++
-				ok, why := sortedBeforeUse(fn, fill)
+				ok, why, sorts := sortedBeforeUseCalls(fn, fill)
 				check(fmt.Sprintf("%s#order:map_filled_slice_sorted_before_use:%s", shortFn(fn), fill.name), ok, why, ex.pos(fill.alloc.Pos()))
+				// the sort decides the order only if the comparison is a strict total order: it must be the built-in
+				// order or a named function whose order laws are lemmas under contract (added to this property's units)
+				for k, sc := range sorts {
+					cmp, reason := comparatorOf(sc)
+					okc := cmp == "builtin"
+					what := "sorted by the built-in order"
+					if !okc && cmp != "" {
+						if ls, has := comparatorLemmas[cmp]; has {
+							okc = true
+							what = "sorted by " + shortKey(cmp) + ", whose order laws are the lemmas " + shortKey(ls[0]) + " ... under contract"
+							for _, l := range ls {
+								lemmaKeys[l] = true
+							}
+						} else {
+							what = "sorted by " + cmp + ", for which no order lemmas are under contract"
+						}
+					} else if !okc {
+						what = reason
+					}
+					check(fmt.Sprintf("%s#order:comparison_is_a_proved_total_order:%s@%d", shortFn(fn), fill.name, k+1), okc, what, ex.pos(sc.Pos()))
+				}
 			}
 		}
 	}
 	check("decorator#order:scan_completed", nm > 0, fmt.Sprintf("%d slices filled from map iteration found", nm), "")
 	check("decorator#readonly:scan_completed", true, fmt.Sprintf("scanned packages decorator, guess, simple: %d writes to shared tables found", n), "")
-	return []*Unit{unit}, nil
+	var lks []string
+	for k := range lemmaKeys {
+		lks = append(lks, k)
+	}
+	sort.Strings(lks)
+	us, es := buildFuncUnits(p, lks, nil)
+	return append([]*Unit{unit}, us...), es
 }
 
 func init() {
@@ -320,7 +348,7 @@ func init() {
 			"data-race freedom of everything each goroutine owns privately is assumed; token.FileSet is internally synchronised; a data-race-free program behaves as if each call ran alone (Go memory model)",
 			"callbacks passed to ast.Inspect are called synchronously inside the region where the closure was created",
 		},
-		NotDecided: []string{"determinism under map iteration order beyond the one structural rule (a slice filled from a map is sorted by a dominating sort call before it is read; that the comparison is a strict total order is C07's lemma set): the map loops of updateImports that write maps (effectiveAlias, resolved, packageNames) are not proved order-independent", "which error is returned when two resolver calls would both fail"},
+		NotDecided: []string{"determinism under map iteration order beyond the one structural rule (a slice filled from a map is sorted by a dominating sort call before it is read; the comparison of that sort is the built-in order or a function whose strict-total-order lemmas are discharged here): the map loops of updateImports that write maps (effectiveAlias, resolved, packageNames) are not proved order-independent", "which error is returned when two resolver calls would both fail"},
 	})
 }
 
@@ -438,6 +466,131 @@ func mapFilledSlices(fn *ssa.Function) []mapFill {
 // sortedBeforeUse: some sort call on the slice dominates every read of it outside the filling loop
 // (other than the reads that feed the sort call itself).
 func sortedBeforeUse(fn *ssa.Function, mf mapFill) (bool, string) {
+	ok, why, _ := sortedBeforeUseCalls(fn, mf)
+	return ok, why
+}
+
+// comparatorLemmas: comparison functions for which harness lemmas (irreflexive, asymmetric,
+// transitive, total) exist under contract; a sort of a map-filled slice is deterministic only with one of them
+// (or the built-in order of sort.Strings / sort.Ints).
+var comparatorLemmas = map[string][]string{
+	pkgDecorator + ".packagePathOrderLess": {pkgDecorator + ".lemmaOrderIrreflexive", pkgDecorator + ".lemmaOrderAsymmetric", pkgDecorator + ".lemmaOrderTransitive", pkgDecorator + ".lemmaOrderTotal"},
+}
+
+// comparatorOf: the named comparison function a sort call's less-closure delegates to: the closure's only call is
+// F(s[i], s[j]) and its result is what the closure returns. "" with a reason otherwise; "builtin" for sort.Strings / sort.Ints.
+func comparatorOf(sc *ssa.Call) (string, string) {
+	switch sc.Call.StaticCallee().Name() {
+	case "Strings", "Ints":
+		return "builtin", ""
+	case "Slice", "SliceStable":
+	default:
+		return "", "sorted through a sort.Interface whose Less is not under contract"
+	}
+	if len(sc.Call.Args) < 2 {
+		return "", "no comparison function"
+	}
+	var cl *ssa.Function
+	switch v := sc.Call.Args[1].(type) {
+	case *ssa.MakeClosure:
+		cl, _ = v.Fn.(*ssa.Function)
+	case *ssa.Function:
+		cl = v
+	}
+	if cl == nil {
+		return "", "the comparison function is not a function literal"
+	}
+	var calls []*ssa.Call
+	for _, b := range cl.Blocks {
+		for _, in := range b.Instrs {
+			switch x := in.(type) {
+			case *ssa.Call:
+				if _, isBuiltin := x.Call.Value.(*ssa.Builtin); isBuiltin {
+					continue
+				}
+				calls = append(calls, x)
+			case *ssa.Return:
+				if len(calls) != 1 || len(x.Results) != 1 || throughLocal(x.Results[0]) != ssa.Value(calls[0]) {
+					return "", "the comparison function does not return the result of exactly one call of a named comparison"
+				}
+			}
+		}
+	}
+	if len(calls) != 1 || len(cl.Blocks) != 1 {
+		return "", "the comparison function is not a single call of a named comparison"
+	}
+	callee := calls[0].Call.StaticCallee()
+	if callee == nil {
+		return "", "the comparison function calls a dynamic callee"
+	}
+	// arguments: element i and element j of the slice, in this order
+	if len(calls[0].Call.Args) != 2 || len(cl.Params) != 2 {
+		return "", "the comparison is not called with two elements"
+	}
+	for k, a := range calls[0].Call.Args {
+		idx := elementIndex(a)
+		if idx == nil || throughLocal(idx) != ssa.Value(cl.Params[k]) {
+			return "", fmt.Sprintf("argument %d of the comparison is not derived from the element at the closure's parameter %d alone", k+1, k+1)
+		}
+	}
+	return callee.String(), ""
+}
+
+// throughLocal: a load of a local that is stored exactly once stands for the stored value (naive-form SSA keeps
+// parameters and results in locals).
+func throughLocal(v ssa.Value) ssa.Value {
+	for i := 0; i < 4; i++ {
+		ld, ok := v.(*ssa.UnOp)
+		if !ok {
+			return v
+		}
+		a, ok := ld.X.(*ssa.Alloc)
+		if !ok {
+			return v
+		}
+		var src ssa.Value
+		n := 0
+		for _, r := range *a.Referrers() {
+			if st, ok := r.(*ssa.Store); ok && st.Addr == ssa.Value(a) {
+				src = st.Val
+				n++
+			}
+		}
+		if n != 1 {
+			return v
+		}
+		v = src
+	}
+	return v
+}
+
+// elementIndex: for a value computed from s[p] by loads, field reads and calls of pure library functions with that
+// single argument, the index value p; nil otherwise.
+func elementIndex(v ssa.Value) ssa.Value {
+	for i := 0; i < 12; i++ {
+		switch x := v.(type) {
+		case *ssa.UnOp:
+			v = x.X
+		case *ssa.IndexAddr:
+			return x.Index
+		case *ssa.Index:
+			return x.Index
+		case *ssa.FieldAddr:
+			v = x.X
+		case *ssa.Field:
+			v = x.X
+		case *ssa.ChangeType:
+			v = x.X
+		case *ssa.Convert:
+			v = x.X
+		default:
+			return nil
+		}
+	}
+	return nil
+}
+
+func sortedBeforeUseCalls(fn *ssa.Function, mf mapFill) (bool, string, []*ssa.Call) {
 	isSort := func(c *ssa.CallCommon) bool {
 		if f := c.StaticCallee(); f != nil && f.Pkg != nil && f.Pkg.Pkg.Path() == "sort" {
 			switch f.Name() {
@@ -483,11 +636,11 @@ func sortedBeforeUse(fn *ssa.Function, mf mapFill) (bool, string) {
 			}
 			for _, in := range b.Instrs {
 				if ld, ok := in.(*ssa.UnOp); ok && ld.X == mf.alloc {
-					return false, fmt.Sprintf("%s is filled in map iteration order and read without being sorted", mf.name)
+					return false, fmt.Sprintf("%s is filled in map iteration order and read without being sorted", mf.name), sorts
 				}
 			}
 		}
-		return true, mf.name + " is filled from a map and never read outside the loop"
+		return true, mf.name + " is filled from a map and never read outside the loop", sorts
 	}
 	for _, b := range fn.Blocks {
 		if mf.loop[b] {
@@ -537,11 +690,11 @@ func sortedBeforeUse(fn *ssa.Function, mf mapFill) (bool, string) {
 				if beforeLoop {
 					continue
 				}
-				return false, fmt.Sprintf("%s is filled in map iteration order; a read of it is not dominated by a sort call", mf.name)
+				return false, fmt.Sprintf("%s is filled in map iteration order; a read of it is not dominated by a sort call", mf.name), sorts
 			}
 		}
 	}
-	return true, mf.name + " is sorted before every read that follows the map iteration"
+	return true, mf.name + " is sorted before every read that follows the map iteration", sorts
 }
 
 func fromSliceVia(v ssa.Value, ld *ssa.UnOp) bool {
